@@ -4,6 +4,7 @@ import (
 	"fmt"
 	"os"
 	"sort"
+	"strconv"
 	"strings"
 
 	"rare/pkg/expressions"
@@ -248,7 +249,7 @@ var fillers = [][]string{nil, {"# a comment"}, {""}, {"   # indented comment", "
 func funcsRule(tier string) string {
 	return fmt.Sprintf("%d first definitions (bodies over {0},{1},{2},{key}, missing and lazy arguments, a rebinding @map, typed and constant-only helper arguments, text around statements) and %d second definitions calling the first (nested, inside a builtin, with a key argument, inside @map); "+
 		"every layout of a definition over its argument separators with up to 2 line breaks x 7 continuation styles (backslash, backslash + trailing comment, comment line or blank line inside the continuation, tab / no indentation, two blanks before the backslash) and an optional trailing comment, x 4 fillers (none, comment, blank, indented comment + blank) before and between definitions, loaded through LoadDefinitionsFile from a real file (one call site per layout) or LoadDefinitions, then TryAddFunctions as main.go does; "+
-		"call sites with 1..3 arguments from {2, a, 'a b', {0}, {1}, {key}, {sumi {0} 1}} (all pairs in the thorough tier), a nested call of the function itself, a call inside a builtin, inside @map and between text; 5 contexts; compared with the harness's tree-level inlining evaluated by the builtin table, for the optimising and the plain call-site build (tier %s)", len(firstDefs()), len(secondDefs("f")), tier)
+		"call sites with 1..3 arguments from {2, a, 'a b', {0}, {1}, {key}, {sumi {0} 1}} (all pairs in the thorough tier), a nested call of the function itself, a call inside a builtin, inside @map and between text; 5 contexts; compared with the harness's tree-level inlining evaluated by the builtin table, for the optimising and the plain call-site build (tier %s); %s", len(firstDefs()), len(secondDefs("f")), tier, longRule(tier))
 }
 
 func clearAdditional() {
@@ -384,9 +385,14 @@ func (e *env) funcsPhase(unit *int64) {
 			w.Add("funcs_definition_sets", 1)
 		}
 	}
+	e.longPhase(unit)
 }
 
 func (e *env) funcsReplay(c Case) {
+	if c.Long != nil {
+		e.longOne(*c.Long)
+		return
+	}
 	// rebuild from the recorded texts; the definitions are recovered by name
 	var defs []ndef
 	all := firstDefs()
@@ -416,7 +422,7 @@ func (e *env) funcsReplay(c Case) {
 			}
 		}
 	}
-	e.funcsCompare(defs, callNode, uq(c.File), plain, uq(c.Template), uq(c.Inline), c.OnDisk, c.Body, "replayed")
+	e.funcsCompare(cmpIn{defs: defs, callNode: callNode, text: uq(c.File), plain: plain, callT: uq(c.Template), inlineT: uq(c.Inline), onDisk: c.OnDisk, id: c.Body, layoutDesc: "replayed"})
 }
 
 func (e *env) funcsOne(fc funcsCase) {
@@ -439,7 +445,7 @@ func (e *env) funcsOne(fc funcsCase) {
 	e.w.SetCase(func() any {
 		return Case{Part: "funcs", Template: q(callT), File: q(fc.text), Plain: q(fc.plain), Inline: q(inlineT), Body: id, OnDisk: fc.onDisk}
 	})
-	e.funcsCompare(fc.defs, fc.call, fc.text, fc.plain, callT, inlineT, fc.onDisk, id, fc.layout)
+	e.funcsCompare(cmpIn{defs: fc.defs, callNode: fc.call, text: fc.text, plain: fc.plain, callT: callT, inlineT: inlineT, onDisk: fc.onDisk, id: id, layoutDesc: fc.layout})
 }
 
 // defaultedValue evaluates the call with the first definition's body replaced
@@ -476,10 +482,37 @@ func seqAsArgument(n *exprgen.Node, isArg bool) bool {
 	return false
 }
 
-func (e *env) funcsCompare(defs []ndef, callNode *exprgen.Node, text, plain, callT, inlineT string, onDisk bool, id, layoutDesc string) {
+// cmpIn is one funcs-file case: the definitions, the file text they are loaded
+// from, the call and its inlined form.
+type cmpIn struct {
+	defs       []ndef
+	callNode   *exprgen.Node
+	text       string // the funcs file
+	plain      string // the same definitions one per line ("" = the long-line family, which has no such reference)
+	callT      string
+	inlineT    string
+	onDisk     bool
+	id         string
+	layoutDesc string
+	long       *longCase // the long-line family: replayed from its parameters, texts abbreviated in reports
+}
+
+func (e *env) funcsCompare(in cmpIn) {
 	w := e.w
+	defs, callNode, text, plain, callT, inlineT, onDisk, id, layoutDesc := in.defs, in.callNode, in.text, in.plain, in.callT, in.inlineT, in.onDisk, in.id, in.layoutDesc
 	mk := func(where string) Case {
+		if in.long != nil {
+			return Case{Part: "funcs", Template: q(callT), Body: id, OnDisk: onDisk, Where: where, Long: in.long}
+		}
 		return Case{Part: "funcs", Template: q(callT), File: q(text), Plain: q(plain), Inline: q(inlineT), Body: id, OnDisk: onDisk, Where: where}
+	}
+	// what a report shows of the file and of values (the long-line family's are abbreviated)
+	show, showV := text, func(s string) string { return strconv.Quote(s) }
+	loadSig := "C10/funcs/layout-changes-what-is-loaded"
+	if in.long != nil {
+		show = abbrevLines(text)
+		showV = abbrevValue
+		loadSig += "/" + id
 	}
 	names := make([]string, 0, len(defs))
 	for _, d := range defs {
@@ -495,25 +528,27 @@ func (e *env) funcsCompare(defs []ndef, callNode *exprgen.Node, text, plain, cal
 		return true
 	}
 	// the definitions written one per line must be acceptable at all
-	var plainFns map[string]expressions.KeyBuilderFunction
-	var plainErr error
-	if pi := catch(func() { plainFns, plainErr = loadFuncs(plain, false) }); pi != nil {
-		w.Add("skipped_load_panics_c08", 1)
-		w.Eval(false)
-		return
-	}
-	if plainErr != nil || !has(plainFns) {
-		w.Add("funcs_rejected_even_on_one_line", 1)
-		w.Eval(false)
-		return
+	if plain != "" {
+		var plainFns map[string]expressions.KeyBuilderFunction
+		var plainErr error
+		if pi := catch(func() { plainFns, plainErr = loadFuncs(plain, false) }); pi != nil {
+			w.Add("skipped_load_panics_c08", 1)
+			w.Eval(false)
+			return
+		}
+		if plainErr != nil || !has(plainFns) {
+			w.Add("funcs_rejected_even_on_one_line", 1)
+			w.Eval(false)
+			return
+		}
 	}
 	var fns map[string]expressions.KeyBuilderFunction
 	var err error
 	if pi := catch(func() { fns, err = loadFuncs(text, onDisk) }); pi != nil {
 		// the same definitions load when written one per line
 		w.Eval(true)
-		w.Violation("C10/funcs/layout-changes-what-is-loaded",
-			fmt.Sprintf("the definitions load when written one per line but loading this layout (%s) panics: %v\nfile:\n%s", layoutDesc, pi.val, text), mk("load"))
+		w.Violation(loadSig,
+			fmt.Sprintf("the definitions load when written one per line but loading this layout (%s) panics: %v\nfile:\n%s", layoutDesc, pi.val, show), mk("load"))
 		return
 	}
 	if err != nil || !has(fns) || len(fns) != len(names) {
@@ -523,8 +558,15 @@ func (e *env) funcsCompare(defs []ndef, callNode *exprgen.Node, text, plain, cal
 		}
 		sort.Strings(got)
 		w.Eval(true)
-		w.Violation("C10/funcs/layout-changes-what-is-loaded",
-			fmt.Sprintf("the definitions load when written one per line but not in this layout (%s)\nfile:\n%s\nerror: %v\nloaded names: %v, expected %v", layoutDesc, text, err, got, names), mk("load"))
+		what := "the definitions load when written one per line but not in this layout"
+		if in.long != nil {
+			what = "every definition of this file is short enough to load when its lines are short (and its body compiles inline), but this file does not load as written: a definition is missing, truncated into another name, or the loader reported an error"
+			for i := range got {
+				got[i] = abbrevValue(got[i])
+			}
+		}
+		w.Violation(loadSig,
+			fmt.Sprintf("%s (%s)\nfile:\n%s\nerror: %v\nloaded names: %v, expected %v", what, layoutDesc, show, err, got, names), mk("load"))
 		return
 	}
 	// reference: the inlined body on the builtin table, not optimised
@@ -548,7 +590,7 @@ func (e *env) funcsCompare(defs []ndef, callNode *exprgen.Node, text, plain, cal
 		if cerr != nil || calls[o] == nil {
 			w.Eval(true)
 			w.Violation("C10/funcs/call-site-does-not-compile/"+id,
-				fmt.Sprintf("the call %q of a loaded function does not compile (%v) although the inlined body %q does\nfile:\n%s", callT, cerr, inlineT, text), mk("compile"))
+				fmt.Sprintf("the call %q of a loaded function does not compile (%v) although the inlined body %s does\nfile:\n%s", callT, cerr, showV(inlineT), show), mk("compile"))
 			return
 		}
 	}
@@ -581,7 +623,7 @@ func (e *env) funcsCompare(defs []ndef, callNode *exprgen.Node, text, plain, cal
 					sig += "/" + strings.Join(names, "+")
 				}
 				w.Violation(sig,
-					fmt.Sprintf("call %q (optimise=%v) on context %s returned %q; the inlined body %q returns %q\nlayout: %s\nfile:\n%s", callT, o == 0, cx.Name, got, inlineT, want, layoutDesc, text), mk("ctx="+cx.Name))
+					fmt.Sprintf("call %q (optimise=%v) on context %s returned %s; the inlined body %s returns %s%s\nlayout: %s\nfile:\n%s", callT, o == 0, cx.Name, showV(got), showV(inlineT), showV(want), firstDiff(got, want), layoutDesc, show), mk("ctx="+cx.Name))
 			}
 		}
 		if len(sum) < 200 {
@@ -591,7 +633,11 @@ func (e *env) funcsCompare(defs []ndef, callNode *exprgen.Node, text, plain, cal
 	w.Eval(compared > 0)
 	w.Add("funcs_cases", 1)
 	w.Outcome("funcs", id, sum)
-	if w.WantSample() && compared > 0 && strings.Contains(text, "\\") && strings.Contains(callT, "{0}") {
+	if in.long != nil {
+		w.Add("funcs_long_line_cases", 1)
+		w.Max("funcs_longest_physical_line", int64(in.long.Size))
+	}
+	if w.WantSample() && compared > 0 && in.long == nil && strings.Contains(text, "\\") && strings.Contains(callT, "{0}") {
 		w.Sample(mk(""))
 	}
 }
